@@ -97,9 +97,23 @@ func argRuns(pigeon, dir string, timeout time.Duration) []string {
 		{[]string{"-alternate-entrypoints", "B,,A", "-x", g}, "1 1 0 1 1 1 1 1 1 1 1 1 1"},
 		{[]string{"-o", filepath.Join(dir, "argrun.go"), g}, "1 1 0 1 1 1 0 1 1 1 1 1 1"},
 	}
+	// grammars beyond any plausible size limit of the reader (64 KiB, 1 MiB): padded with comment lines, so that a reader
+	// that silently stops somewhere stops at a place where the text so far is a complete grammar - then an invalid last rule is
+	// accepted, or a last rule named as entrypoint is "unknown" (round 20, C13: io.LimitReader on the input)
+	pad := "// padding line of a grammar that somebody generated from a long table ........................\n"
+	for _, size := range []int{70 << 10, 1100 << 10} {
+		body := "A <- \"a\" B\nB <- \"b\"\n" + strings.Repeat(pad, size/len(pad)+1)
+		bad := filepath.Join(dir, fmt.Sprintf("big-bad-%d.peg", size))
+		good := filepath.Join(dir, fmt.Sprintf("big-good-%d.peg", size))
+		os.WriteFile(bad, []byte(body+"Z <- \"unterminated\n"), 0o644)
+		os.WriteFile(good, []byte(body+"Tail <- \"t\"\n"), 0o644)
+		runs = append(runs,
+			run{[]string{"-x", bad}, "1 1 0 1 0 1 1 1 1 1 1 1 1"},
+			run{[]string{"-x", "-alternate-entrypoints", "Tail", good}, "1 1 0 1 1 1 1 1 1 1 1 1 1"})
+	}
 	var out []string
 	for k, rn := range runs {
-		ctx, cancel := context.WithTimeout(context.Background(), 3*timeout)
+		ctx, cancel := context.WithTimeout(context.Background(), 6*timeout)
 		cmd := exec.CommandContext(ctx, pigeon, rn.args...)
 		cmd.Dir = dir
 		cmd.Stdin = strings.NewReader("")
